@@ -351,10 +351,10 @@ theorem continuity_split (B : Basis K) (tol : K) (htol : 0 < tol) (A C : List K)
     · have := hC y h; linarith
   unfold Basis.continuity
   have h1 : ¬ (B.periodic ≥ 0) := by rw [hper]; decide
-  have h2 : ¬ (x < B.start ∨ B.stop < x) := by
+  have h2 : ¬ (x < B.start - tol ∨ B.stop + tol < x) := by
     rintro (h | h)
-    · exact absurd hin.1 (not_le.mpr h)
-    · exact absurd hin.2 (not_le.mpr h)
+    · exact absurd hin.1 (not_le.mpr (by linarith))
+    · exact absurd hin.2 (not_le.mpr (by linarith))
   simp only [h1, h2, if_false, hhi, hlo]
   have h3 : ¬ (A.length + k = A.length) := by omega
   simp only [h3, if_false]
